@@ -580,6 +580,8 @@ def run_case(case, prop):
         pool += UNHASHABLE
     if prop == 'C09' and case.get('tol') is not None:
         pool += [2.04, 1.52, 0.12345, 1.005, 2.675]
+    if kind == 'sibling':
+        pool = ['elder-default-%s' % n for n in tgt.defaults] * 3 + pool     # what the other sibling defaults to
     try:
         tgt.use_elder(make_deco(case), make_keygen(case))
         f = tgt.decorate(make_deco(case))
